@@ -10,7 +10,7 @@ Every implementation run happens in a supervised worker: address space 2 GB, CPU
 extracted model recurses over 10^6-element lists), wall-clock limits of lib/vcheck.  No case carries a size
 operand above 10^6 or a doubling program with more than 18 doublings.
 """
-import random, resource, sys, time
+import random, re, resource, sys, time
 import vcheck
 from vcheck import Stream, sx_parse, sx_str
 from gen.stategen import *
@@ -220,18 +220,28 @@ def streams(seed, tier):
 # implementation-only evaluation: cases whose result the model cannot (unseeded RNG) or should not (10^6 float
 # operations in Flocq) reproduce.  The property predicate is still the extracted Coq function, evaluated on the
 # implementation's own output.
-def impl_only(ctx, name, cases, note, time_limit=None):
+def impl_only(ctx, name, cases, note, time_limit=None, parallel=1):
     lines = ["run " + c for c in cases]
-    outs, times = [], []
-    for l in lines:                                   # one supervised process per case: wall-clock per case
+
+    def one(l):                                       # one supervised process per case: wall-clock per case
         t0 = time.time()
-        outs.append(vcheck.run_impl([l], timeout=60)[0])
-        times.append(time.time() - t0)
+        o, n = cut_huge(vcheck.run_impl([l], timeout=CASE_WALL_LIMIT_S)[0])
+        return o, time.time() - t0, n
+    if parallel > 1:
+        from concurrent.futures import ThreadPoolExecutor
+        with ThreadPoolExecutor(parallel) as ex:
+            got = list(ex.map(one, lines))
+    else:
+        got = [one(l) for l in lines]
+    outs, times, sizes = [g[0] for g in got], [g[1] for g in got], [g[2] for g in got]
     verdicts = vcheck.run_checker("cost.check", cases, outs)
     stat = ctx.stats.setdefault(name, {"cases": 0, "impl_panics": 0, "disagree": 0, "pred_fail": 0, "out_of_scope": 0, "note": note,
                                        "max_wall_s": 0.0, "model_compared": False})
     stat["cases"] += len(cases)
     stat["max_wall_s"] = round(max([stat["max_wall_s"]] + times), 3)
+    if max(sizes + [0]):
+        stat["max_result_elements"] = max(sizes + [stat.get("max_result_elements", 0)])
+        stat["did_not_return_within_%ds" % CASE_WALL_LIMIT_S] = stat.get("did_not_return_within_%ds" % CASE_WALL_LIMIT_S, 0) + sum(1 for o in outs if o.startswith("(9"))
     ctx.evaluations += len(cases)
     for c, o, v, dt in zip(cases, outs, verdicts, times):
         if o == vcheck.BAD or v == vcheck.BAD:
@@ -260,6 +270,54 @@ def impl_only(ctx, name, cases, note, time_limit=None):
     if len(ctx.samples) < 16 and cases:
         ctx.samples.append({"stream": name, "case": "run " + cases[0][:300], "impl": outs[0][:200], "model": "(not compared)", "predicate": verdicts[0],
                             "wall_s": round(times[0], 3)})
+
+
+CASE_WALL_LIMIT_S = 60
+_HUGE = re.compile(r"\(([^()]{400000})[^()]*\)")
+
+
+def cut_huge(o):
+    """A flat list of more than 400000 characters in a result (a vector of millions of elements) is cut to its first
+    400000 characters before the result goes to the extracted Coq predicate (the OCaml reader does not survive 3 * 10^7
+    elements under this check's limits).  The weight of a state is monotone in its vectors, so `exceeds the growth bound`
+    is preserved by the cut (and nothing is ever cut below 10^5 elements).  Returns (result, elements of the longest list)."""
+    if len(o) < 20000000:                             # the 10^6-element results of the older streams stay whole
+        return o, 0
+    n = [0]
+
+    def f(m):
+        n[0] = max(n[0], m.group(0).count(" ") + 1)
+        head = m.group(1)
+        return "(" + head[:head.rindex(" ")] + ")"
+    return _HUGE.sub(f, o), n[0]
+
+
+def rand_vec_case(prof, name, n, sparsity=0.25):
+    st = dict(exec=[I(name)], int=[n])
+    if name == "BOOLVECTOR.RAND":
+        st["float"] = [fbits(sparsity)]
+    elif name == "INTVECTOR.RAND":
+        st["int"] = [n, 10, 0]
+    else:
+        st["float"] = [fbits(0.0), fbits(1.0)]
+    return case_run(prof, state(**st), 0, 1)
+
+
+def huge_rand_cases(tier):
+    """vector RAND above 2^24 elements (where `size as f32` is no longer exact) for dense, half and sparse vectors"""
+    sizes = [2 ** 24 + 1, 2 ** 24 + 3, 30000000]
+    spars = [1.0, 0.999, 0.996, 0.75, 0.5, 0.004]
+    cases = []
+    for n in sizes:
+        for sp in spars:
+            if tier == "quick" and n != 2 ** 24 + 3 and sp in (0.996, 0.75, 0.004) and (n, sp) != (30000000, 0.004):
+                continue
+            cases.append(rand_vec_case(1, "BOOLVECTOR.RAND", n, sp))
+    cases.append(rand_vec_case(1, "INTVECTOR.RAND", 2 ** 24 + 3))
+    cases.append(rand_vec_case(1, "FLOATVECTOR.RAND", 2 ** 24 + 3))
+    if tier != "quick":                               # the debug binary needs 9 .. 13 s for half-dense vectors of this size
+        cases += [rand_vec_case(0, "BOOLVECTOR.RAND", 2 ** 24 + 3, sp) for sp in (1.0, 0.996, 0.004)]
+    return cases
 
 
 def big_vec(n, kind):
@@ -321,6 +379,11 @@ def extra(ctx):
             cases.append(size_case(1, nm, 1000000))
     impl_only(ctx, "unbounded-impl-only", cases,
               "vector RAND / FLOATVECTOR.SINE / LIST.NEIGHBOR* at 10^4 and 10^6 on the implementation alone (unseeded RNG; 10^6 Flocq operations): complete, violate the bound, known classes")
+    impl_only(ctx, "huge-rand-vectors", huge_rand_cases(ctx.tier),
+              "BOOLVECTOR.RAND with sizes 2^24+1, 2^24+3, 3*10^7 x sparsities 1, .999, .996, .75, .5, .004 (quick: all six at 2^24+3, three or four at the other sizes), INTVECTOR.RAND and "
+              "FLOATVECTOR.RAND at 2^24+3, release binary, one supervised process per case (4 at a time), %d s wall-clock each: the step RETURNS (a step that does not is a violation) "
+              "and exceeds the growth bound (known class alloc-by-operand-rand); the result vector is cut to 10^5+ elements before the Coq predicate reads it" % CASE_WALL_LIMIT_S,
+              parallel=4)
     # the scalar generators and CODE.RAND: bounded by the configured limits, results random
     cases = []
     for nm in sorted(stepgen.RANDOM - set(RANDVEC)):
